@@ -1465,6 +1465,13 @@ class SimKernel:
         if self._denied(p):
             self._effect("kill_denied", pid, p, sig=sig)
             raise self._err(errno.EPERM)
+        if p.zombie and sig != 0 and self.cfg.get("kill_zombie_esrch"):
+            # OpenBSD as psutil's sources describe it: delivering a signal
+            # to a zombie answers ESRCH ("os.kill() lies in case of zombie
+            # processes", psutil/__init__.py) while the existence probe
+            # kill(pid, 0) still succeeds (_psbsd.pid_exists trusts it)
+            self._effect("kill_miss", pid, p, sig=sig)
+            raise self._err(errno.ESRCH)
         self._effect("kill", pid, p, sig=sig)
         if sig != 0 and self.cfg.get("signals_act") and not p.zombie:
             if sig == 19:
